@@ -4,7 +4,7 @@ CONFIG = {
     "technique": "Lean 4 proof over a decision-sequence model + verdict correspondence and spec-on-implementation with the Go verification functions + regenerated check tables (go/ast)",
     "models": ["stateless"],
     "lean_sources": ["OasisModel/Stateless", "OasisModel/Proto.lean", "OasisProofs/Helpers/StatelessMerkle.lean"],
-    "extra_theorem_files": [{"file": "OasisProofs/Props/C19Cache.lean", "namespace": "OasisProofs.C19Cache"}, {"file": "OasisProofs/Props/C19StoreFacts.lean", "namespace": "OasisProofs.C19StoreFacts"}],
+    "extra_theorem_files": [{"file": "OasisProofs/Props/C19Cache.lean", "namespace": "OasisProofs.C19Cache"}, {"file": "OasisProofs/Props/C19StoreFacts.lean", "namespace": "OasisProofs.C19StoreFacts"}, {"file": "OasisProofs/Props/C19TrustedStore.lean", "namespace": "OasisProofs.C19TrustedStore"}],
     "regen": [
         {"kind": "stmtfacts", "out": "StmtFactsLightstore.lean", "args": ["lightstore"]},
         {"kind": "statelessfacts", "out": "StatelessFacts.lean"},
